@@ -350,6 +350,19 @@ def run(ctx):
             ok = okp and bool(prev_w) and src_ok
             det += f"; every path from the stamp to return links the awaiter at the tail: {okp}; stamp = the set's current generation: {src_ok}"
         ctx.ob("R7.awaiter-list-discipline", "generation-stamped-only-on-fresh-link", ok, reg.loc(), det)
+        # a fresh link (re)writes BOTH link fields of the awaiter: remove()/unregister() leave them stale on purpose and rely on
+        # register() to overwrite them - a stale `next` on an awaiter re-linked at the tail closes the list into a cycle
+        if gen_w and gen_w[0][0].key == reg.key:
+            gbb = gen_w[0][1]
+            tail_w = [bb for bb, _, _ in field_assigns(reg, "AwaiterSet::tail")]
+            oks = {}
+            for fld in ("prev", "next"):
+                ws = [bb for bb, _, _ in field_assigns(reg, f"awaiter::Inner::{fld}")]
+                # written on the same fresh-link path as the generation stamp: every path from the stamp to the return passes a write
+                okf, _ = reg.must_pass([gbb], ws, reg.exits(("return",))) if ws and gbb not in ws else (bool(ws), None)
+                oks[fld] = okf
+            ctx.ob("R7.awaiter-list-discipline", "fresh-link-resets-both-links", all(oks.values()), reg.loc(),
+                   f"on the fresh-link path the awaiter's own link fields are written: {oks}")
         # waker set before WAITING
         dom = reg.dominators(unwind=False)
         sl_w = [(bb, t) for bb, t in reg.calls() if t["callee"].get("method") == "set_lifecycle"]
@@ -378,7 +391,28 @@ def run(ctx):
         ctx.fn(pg)
         rm = calls_to(pg, "AwaiterSet::remove")
         ok = len(rm) == 1
-        if ok:
+        if not rm:
+            # `(head_generation < self.generation).then(|| self.remove(self.head))`: the removal sits in the closure of bool::then,
+            # the comparison is the receiver of that call
+            thens = [(bb, t) for bb, t in pg.calls() if t["callee"].get("method") == "then" and not pg.blocks[bb].cleanup]
+            crm = [(c, bb, t) for c in prog.closures_of(pg) for bb, t in calls_to(c, "AwaiterSet::remove")]
+            ok = len(thens) == 1 and len(crm) == 1
+            if ok:
+                c, _cbb, ct = crm[0]
+                hf = any(f.endswith("AwaiterSet::head") for f in Slice(c).run(ct["args"][1])["fields"])
+                dl = op_local(thens[0][1]["args"][0])
+                d = pg.unique_def(dl) if dl is not None else None
+                cmp_ok = False
+                if d and d[2] == "assign" and d[3]["rv"]["k"] == "binop" and d[3]["rv"]["op"] in ("Lt", "Gt"):
+                    sa, sb = Slice(pg).run(d[3]["rv"]["a"]), Slice(pg).run(d[3]["rv"]["b"])
+                    fa = {f.split("::")[-1] for f in sa["fields"]}
+                    fb = {f.split("::")[-1] for f in sb["fields"]}
+                    # head.generation < set.generation (or the mirrored spelling)
+                    head_side, set_side = (fa, fb) if d[3]["rv"]["op"] == "Lt" else (fb, fa)
+                    cmp_ok = "head" in head_side and "generation" in head_side and "generation" in set_side and "head" not in set_side
+                ok = hf and cmp_ok
+            ctx.ob("R7.awaiter-list-discipline", "prior-generation-test-on-head", ok, pg.loc(), "(bool::then form) removes the head only when head.generation < set.generation")
+        elif ok:
             r, fs = op_access_path(pg, rm[0][1]["args"][1])
             ok = bool(fs) and fs[-1].endswith("AwaiterSet::head")
             gs = switch_guards(pg, rm[0][0])
@@ -393,7 +427,8 @@ def run(ctx):
                         fb = {f.split("::")[-1] for f in sb["fields"]}
                         cmp_ok = ("head" in fa or "head" in fb) and ("generation" in fa and "generation" in fb)
             ok = ok and cmp_ok
-        ctx.ob("R7.awaiter-list-discipline", "prior-generation-test-on-head", ok, pg.loc(), "removes the head only when head.generation < set.generation")
+        if rm:
+            ctx.ob("R7.awaiter-list-discipline", "prior-generation-test-on-head", ok, pg.loc(), "removes the head only when head.generation < set.generation")
     ag = prog.one("AwaiterSet::advance_generation")
     if ag is not None:
         ws = field_assigns(ag, "AwaiterSet::generation")
